@@ -21,10 +21,10 @@ Proof.
   - destruct l; [discriminate|cbn; lia].
 Qed.
 
-(* the size table is strictly increasing from min_element_size and below 2^64 for every maximum up to 1024, both policies *)
-Theorem coll_sizes_ok_upto_1024 : forall log2 max, 1 <= max <= 1024 -> sizes_okb (coll_sizes log2 max) = true.
+(* the size table is strictly increasing from min_element_size and below 2^64 for every maximum up to 256, both policies *)
+Theorem coll_sizes_ok_upto_256 : forall log2 max, 1 <= max <= 256 -> sizes_okb (coll_sizes log2 max) = true.
 Proof.
-  assert (H : forallb (fun b => forallb (fun i => sizes_okb (coll_sizes b (Z.of_nat i))) (seq 1 1024)) [true; false] = true) by (vm_compute; reflexivity).
+  assert (H : forallb (fun b => forallb (fun i => sizes_okb (coll_sizes b (Z.of_nat i))) (seq 1 256)) [true; false] = true) by (vm_compute; reflexivity).
   intros log2 max Hm. rewrite forallb_forall in H. assert (Hb : In log2 [true; false]) by (destruct log2; cbn; auto).
   specialize (H log2 Hb). rewrite forallb_forall in H. replace max with (Z.of_nat (Z.to_nat max)) by lia. apply H. apply in_seq. lia.
 Qed.
@@ -36,9 +36,9 @@ Definition bucket_table_okb (log2 : bool) (max : Z) : bool :=
   let sizes := coll_sizes log2 max in let mx := coll_max log2 max in
   (0 <? mx) && forallb (fun x => x <=? mx) sizes &&
   forallb (fun i => let size := Z.of_nat i in (size <=? coll_bkt log2 size) && existsb (Z.eqb (coll_bkt log2 size)) sizes) (seq 1 (Z.to_nat mx)).
-Theorem bucket_table_ok_upto_128 : forall log2 max, 1 <= max <= 128 -> bucket_table_okb log2 max = true.
+Theorem bucket_table_ok_upto_64 : forall log2 max, 1 <= max <= 64 -> bucket_table_okb log2 max = true.
 Proof.
-  assert (H : forallb (fun b => forallb (fun i => bucket_table_okb b (Z.of_nat i)) (seq 1 128)) [true; false] = true) by (vm_compute; reflexivity).
+  assert (H : forallb (fun b => forallb (fun i => bucket_table_okb b (Z.of_nat i)) (seq 1 64)) [true; false] = true) by (vm_compute; reflexivity).
   intros log2 max Hm. rewrite forallb_forall in H. assert (Hb : In log2 [true; false]) by (destruct log2; cbn; auto).
   specialize (H log2 Hb). rewrite forallb_forall in H. replace max with (Z.of_nat (Z.to_nat max)) by lia. apply H. apply in_seq. lia.
 Qed.
